@@ -67,15 +67,16 @@ Section Unfold.
           end
         end
     | TPattern rxs =>
-        match b with
-        | TPattern rxs' =>
-            Nat.eqb (length rxs) 0 || (negb (Nat.eqb (length rxs') 0) && forallb (fun p => mem_str p rxs) rxs')
-        | TString => Nat.eqb (length rxs) 0
-        | TStringVal s => Nat.eqb (length rxs) 0 || matches_any rx rxs s
-        | TEnum ci vs =>
-            Nat.eqb (length rxs) 0 ||
-            (negb ci && negb (Nat.eqb (length vs) 0) && forallb (matches_any rx rxs) vs)
-        | _ => false
+        match rxs with
+        | [] =>      (* patterntype.go:97: no patterns = whatever String accepts *)
+            match b with TString | TStringSz _ _ | TStringVal _ | TEnum _ _ | TPattern _ => true | _ => false end
+        | _ =>
+            match b with
+            | TPattern rxs' => negb (Nat.eqb (length rxs') 0) && forallb (fun p => mem_str p rxs) rxs'
+            | TStringVal s => matches_any rx rxs s
+            | TEnum ci vs => negb ci && negb (Nat.eqb (length vs) 0) && forallb (matches_any rx rxs) vs
+            | _ => false
+            end
         end
     | TRegexp p => match b with TRegexp p' => str_eqb p [] || str_eqb p p' | _ => false end
     | TBinary => match b with TBinary => true | _ => false end
@@ -87,18 +88,19 @@ Section Unfold.
         end
     | TArray e lo hi =>
         match b with
-        | TArray e' lo' hi' => size_sub lo hi lo' hi' && G e e'
+        | TArray e' lo' hi' => size_sub lo hi lo' hi' && ((hi' =? 0) || G e e')
         | TTuple ts _ lo' hi' =>
             size_sub lo hi lo' hi' &&
-            match ts with
-            | [] => (hi' <=? 0) || G e TAny
-            | _ => forallb (G e) ts
-            end
+            ((hi' =? 0) ||
+             match ts with
+             | [] => G e TAny
+             | _ => forallb (G e) ts
+             end)
         | _ => false
         end
     | THash k v lo hi =>
         match b with
-        | THash k' v' lo' hi' => size_sub lo hi lo' hi' && G k k' && G v v'
+        | THash k' v' lo' hi' => size_sub lo hi lo' hi' && ((hi' =? 0) || (G k k' && G v v'))
         | TStruct ms =>
             size_sub lo hi (struct_required ms) (zlen ms) &&
             forallb (fun m => G k (actual_key (fst (snd m))) && G v (snd (snd m))) ms
@@ -106,12 +108,12 @@ Section Unfold.
         end
     | TTuple ts _ lo hi =>
         match b with
-        | TArray e' lo' hi' => size_sub lo hi lo' hi' && forallb (fun t => G t e') ts
+        | TArray e' lo' hi' => size_sub lo hi lo' hi' && ((hi' =? 0) || forallb (fun t => G t e') ts)
         | TTuple os _ lo' hi' =>
             size_sub lo hi lo' hi' &&
             match ts with
             | [] => true
-            | _ => match os with [] => hi' <=? 0 | _ => tpairs ts os end
+            | _ => (hi' =? 0) || match os with [] => forallb (fun t => G t TAny) ts | _ => tpairs ts os end
             end
         | _ => false
         end
@@ -144,7 +146,7 @@ Section Unfold.
     if is_any a then true else
     match b with
     | TUnit => true
-    | TNotUndef nt => if nullable nt then recv a b else G a nt
+    | TNotUndef nt => if G a nt then true else if nullable nt then recv a b else false
     | TOptional ot => if nullable a then G a ot else false
     | TVariant ts => forallb (G a) ts
     | _ => recv a b
